@@ -32,6 +32,10 @@ type Action struct {
 	EMS   int          `json:"ems,omitempty"`
 	Suite int          `json:"suite,omitempty"` // index into suite sets
 	CID   int          `json:"cid,omitempty"`
+	// client authentication of this connect (certificate family): 0 none, 1 server requests / client
+	// has a certificate, 2 server requires any / client has one, 3 require+verify / client has one,
+	// 4 server requests / client has none, 5 server requires any / client has none
+	CAuth int `json:"cauth,omitempty"`
 	// mutate
 	Mut string `json:"mut,omitempty"`
 	Arg int    `json:"arg,omitempty"`
@@ -74,6 +78,20 @@ func epsFor(c *Case, a *Action) (cl, sv scen.EP) {
 		cl.CID, sv.CID = a.CID, a.CID+1
 	}
 	cl.Store, sv.Store = "client", "server"
+	if c.Family != "psk" {
+		switch a.CAuth {
+		case 1:
+			sv.ClientAuth, cl.Cert = 1, "client-ecdsa"
+		case 2:
+			sv.ClientAuth, cl.Cert = 2, "client-ecdsa"
+		case 3:
+			sv.ClientAuth, sv.ClientCAs, cl.Cert = 4, true, "client-ecdsa"
+		case 4:
+			sv.ClientAuth = 1
+		case 5:
+			sv.ClientAuth = 2
+		}
+	}
 
 	return cl, sv
 }
@@ -121,7 +139,8 @@ func run(c Case, r *pbt.R) {
 		var prevExporters [][]byte
 		var last *connResult
 		resumptions, mutations, lossyAbbrev := 0, 0, 0
-		alerted := map[string]bool{} // "C:<key>" / "S:<hex id>" sessions on which a fatal alert was sent
+		alerted := map[string]bool{}      // "C:<key>" / "S:<hex id>" sessions on which a fatal alert was sent
+		certSessions := map[string]bool{} // ids of sessions in whose full handshake the client presented a certificate
 		connect := func(a *Action) *connResult {
 			cEP, sEP := epsFor(&c, a)
 			key := clientKey(cEP.ServerName)
@@ -172,6 +191,11 @@ func run(c Case, r *pbt.R) {
 
 					return res
 				}
+				if certSessions[string(offered)] {
+					r.Failf("C14|client-certificate-session-resumed", "session %x, established with a client certificate, was resumed by an abbreviated handshake (client-auth mode of this connect: %d): the certificate is not presented or checked again", offered, a.CAuth)
+
+					return res
+				}
 				if !match {
 					r.Failf("C14|resumed-without-matching-secrets", "abbreviated handshake succeeded although the stores did not hold the same secret for the offered id (client has entry=%v)", have)
 
@@ -185,6 +209,10 @@ func run(c Case, r *pbt.R) {
 					r.Failf("C14|no-state", "no connection state after success")
 
 					return res
+				}
+				if !res.abbreviated && cEP.Cert != "" && sEP.ClientAuth > 0 && len(sts.PeerCertificates) > 0 {
+					certSessions[string(stc.SessionID)] = true
+					r.Class("client-certificate-session")
 				}
 				e1, err1 := stc.ExportKeyingMaterial("EXPORTER-verif-resume", nil, 32)
 				e2, err2 := sts.ExportKeyingMaterial("EXPORTER-verif-resume", nil, 32)
@@ -456,6 +484,9 @@ func gen(t *rapid.T) Case {
 			a.EMS = rapid.SampledFrom([]int{0, 0, 0, 1, 2}).Draw(t, "ems")
 			a.Suite = rapid.SampledFrom([]int{0, 0, 0, 1, 2, 3, 4}).Draw(t, "suite")
 			a.CID = rapid.SampledFrom([]int{0, 0, 3, 5}).Draw(t, "cid")
+			if c.Family == "cert" {
+				a.CAuth = rapid.SampledFrom([]int{0, 0, 0, 0, 1, 2, 3, 4, 5}).Draw(t, "cauth")
+			}
 		case k <= 8:
 			a.Kind = "mutate"
 			a.Mut = rapid.SampledFrom(muts).Draw(t, "mut")
